@@ -57,7 +57,8 @@ def gen_cases(tier, seed):
                 resume=bool(r % 2),
                 delay=int(rng.choice([2, 3]) if r == 0 else rng.choice([1, 2, 3, 5])),
                 tau=float(rng.choice([0.005, 0.3, 1.0])),
-                gradient_steps=int(rng.choice([1, 1, 2])),
+                gradient_steps=2 if (r % 2 and algo in ("ddpg", "td3", "td3_lap"))
+                else int(rng.choice([1, 1, 2])),
                 total=int(rng.integers(80, 130)), cost=3 * COST.get(algo, 3)))
     for i in range(2 * k):
         # TD7's checkpoint copies: change only by the flagged copies
@@ -336,6 +337,7 @@ def run_loop(case):
     snaps = [(e["n"] - (1 if e["k"] == "step" else 0), e["k"], e.get("name"),
               e["snap"]) for e in tr.events if e.get("snap")]
     changed_iters = {t: set() for t in law}
+    changed_segments = {t: {} for t in law}
     visible_points = {t: set() for t in law}
     n_changes = 0
     for (nA, kA, nameA, A), (nB, kB, nameB, B) in zip(snaps, snaps[1:]):
@@ -346,6 +348,7 @@ def run_loop(case):
             # iteration index (absolute) = start + env steps executed so far - 1
             idx = G + nB - 1
             changed_iters[tgt].add(idx)
+            changed_segments[tgt][idx] = changed_segments[tgt].get(idx, 0) + 1
             new = tr.leaves[B[tgt]]
             old = tr.leaves[A[tgt]]
             cands = [tr.leaves[(B if which == "B" else A)[src]]]
@@ -408,6 +411,19 @@ def run_loop(case):
             if src_dig != sA[tgt]:
                 visible_points[tgt].add(idx)
     res.see("visible_update_points", sum(len(v) for v in visible_points.values()))
+    gs = case["gradient_steps"]
+    if gs > 1 and algo in ("ddpg", "td3", "td3_lap") and tau > 0:
+        # several gradient steps per environment step: the targets follow after
+        # every one of them (each lies in its own snapshot segment)
+        for tgt in law:
+            for idx, cnt in changed_segments[tgt].items():
+                if is_point(idx) and cnt != gs:
+                    res.violation(
+                        f"C06/loop/updates_per_iteration/{algo}",
+                        f"{tgt} was updated {cnt} time(s) in iteration {idx} with "
+                        f"gradient_steps={gs}")
+                    return res
+                res.see("multi_gradient_step_iterations_checked")
     res.nontrivial = n_changes >= 5
     res.state((algo, d, tau, G > 0))
     return res
